@@ -979,6 +979,22 @@ void gen_longsearch(int fi) {
     }
 }
 
+/* string comparisons of operands of 200..639 characters (a library that folds or copies its operands sizes scratch space from them): both operands the
+ * letter pattern, equal or differing in the last character or in case, bounds exact */
+void gen_longstrcmp(int fi) {
+    const Fn *f = &fntab[fi];
+    if (strcmp(f->name, "strcmp_s") && strcmp(f->name, "strcasecmp_s") && strcmp(f->name, "wcscmp_s") && strcmp(f->name, "wcsicmp_s") && strcmp(f->name, "wcsnatcmp_s") && strcmp(f->name, "strnatcmp_s")) return;
+    static const int DL[] = { 200, 330, 341, 342, 500, 639 };
+    int has_l = has_tok(f, "l"), has_c = has_tok(f, "c"); Case c;
+    for (int di = 0; di < 6; di++) for (int var = 0; var < 3; var++) for (int fold = 0; fold <= (has_c ? 1 : 0); fold++) {
+        memset(&c, 0, sizeof c);
+        c.fn = fi; c.place = 1; c.dmax = DL[di] + 1; c.d_obj = c.dmax; c.d_pk = 1; c.d_pl = DL[di];      /* dest: p q r s t u v w p q ... */
+        c.s_k = 0; c.s_len = var == 1 ? DL[di] - 1 : DL[di]; c.s_term = 1; c.s_obj = c.s_len + 1; c.slen = has_l ? c.s_obj : 0; c.c = fold;   /* src: a b c ... (differs at once), or shorter */
+        if (var == 2) { c.alias = 1; c.s_obj = c.dmax; c.s_len = DL[di]; c.slen = has_l ? c.dmax : 0; }      /* the operand against itself */
+        emit(&c);
+    }
+}
+
 /* element comparisons around the sign bit: every pair of element values over {1, 0x7f.., 0x80.., 0xc0.., 0xff..} at every position of
  * operands of 1..3 elements (the wide-character compare orders them as signed wchar_t, the 16/32-bit ones as unsigned) */
 void gen_signcmp(int fi) {
@@ -1050,6 +1066,7 @@ int main(int argc, char **argv) {
         if (P == 10 || P == 2) gen_longcmp(i);
         if (P == 10) gen_signcmp(i);
         if (P == 10 || P == 2) gen_longsearch(i);
+        if (P == 10 || P == 5) gen_longstrcmp(i);
         if (P == 10 || P == 1 || P == 2 || P == 5) gen_foldcmp(i);
         printf("{\"t\":\"fn\",\"fn\":\"%s\",\"evaluations\":%ld}\n", fntab[i].name, n_eval - e0);
     }
